@@ -431,6 +431,10 @@ func (e *Engine) verifyFunction(fn *ssa.Function, fc *FuncContract) (res *FuncRe
 				r.Typ = fn.Signature.Results().At(i).Type()
 			}
 			env.vars[rn[i]] = r
+			env.vars[fmt.Sprintf("res%d", i)] = r // positional alias, also for named results
+			if len(rs) == 1 {
+				env.vars["res"] = r
+			}
 			if isErrorType(fn.Signature.Results().At(i).Type()) && i == len(rs)-1 {
 				if _, taken := env.vars["err"]; !taken || rn[i] == "err" {
 					env.vars["err"] = r
